@@ -222,6 +222,34 @@ def c02_reads (o : StepObs) : Bool :=
     (match o.pre.secrets[n]? with | some s => m == n && vs == s.versions.keys && a == s.active | none => false)
   | _, _ => true
 
+/-- "every result equals that of a plain map model", for the reads, in both directions: a
+caller who holds the action, with the audit log working, is answered exactly what the map
+holds - the active version, the version asked for, the name's versions, every name it may see -
+and "not found" exactly when the map holds nothing there.  (An existing secret whose active
+version is missing is excluded by `inv`.) -/
+def c02_reads_total (o : StepObs) : Bool :=
+  if !o.auditOk then true else
+  match o.op with
+  | .get n =>
+    if !granted o.caller "get" n then true else
+    (match o.pre.secrets[n]? with
+     | none => o.res == .notFound
+     | some s => (match s.versions[s.active]? with | some b => o.res == .value b s.active | none => true))
+  | .getVersion n k =>
+    if !granted o.caller "get" n then true else
+    (match o.pre.secrets[n]? with
+     | none => o.res == .notFound
+     | some s => (match s.versions[k]? with | some b => o.res == .value b k | none => o.res == .notFound))
+  | .info n =>
+    if !granted o.caller "info" n then true else
+    (match o.pre.secrets[n]? with
+     | none => o.res == .notFound
+     | some s => o.res == .infoR n s.versions.keys s.active)
+  | .list =>
+    o.res == .listR ((o.pre.secrets.toList.filter (fun (n, _) => granted o.caller "info" n)).map
+                       (fun (n, s) => (n, s.versions.keys, s.active)))
+  | _ => true
+
 /-! ### C04 (in-process part) -/
 
 def c04_savefail_noop (o : StepObs) : Bool :=
@@ -312,6 +340,7 @@ def clauses : List (String × String × (StepObs → Bool)) :=
     ("C02", "active", c02_active),
     ("C02", "delete_version", c02_delete_version),
     ("C02", "reads", c02_reads),
+    ("C02", "reads_total", c02_reads_total),
     ("C04", "savefail_noop", c04_savefail_noop),
     ("C04", "gen_iff_saved", c04_gen_iff_saved),
     ("C04", "mem_eq_disk", c04_mem_eq_disk),
